@@ -59,15 +59,24 @@ def run_case(ctx, rng, idx):
         cfg.n_ops = rng.randint(150, 300)
     else:
         cfg.n_ops = rng.randint(8, 40)
-    cfg.invalid_rate = 0.0
+    cfg.invalid_rate = 0.1  # refused calls are part of the build: they must leave no trace in what is measured
     cfg.avoid = {"clear", "copy"}
     raw = []
-    try:
-        live, trace = history.run_history(NullCtx(), rng, cfg, battery_every=0, raw=raw)
-    except Exception as e:
-        ctx.note("source-build-failed:" + type(e).__name__)
-        return
-    h = live[0][0]
+    if kind == "H" and (idx in (1, 3, 4) or (ctx.tier == "thorough" and idx % 500 in (13, 15))):
+        from ..gen import core_periphery
+
+        ctx.event("core-periphery-source")
+        h = core_periphery(rng, weighted=rng.random() < 0.4)
+        trace = ["core_periphery"]
+        cfg.uni_name = "wide"
+        cfg.labels = list(h.get_nodes())[:12] + [10**6, 10**6 + 1]
+    else:
+        try:
+            live, trace = history.run_history(NullCtx(), rng, cfg, battery_every=0, raw=raw)
+        except Exception as e:
+            ctx.note("source-build-failed:" + type(e).__name__)
+            return
+        h = live[0][0]
     K = KEYS[kind]
     S0 = observe(h)
     # make sure metadata is present on nodes and hyperedges
